@@ -19,6 +19,8 @@ MIXTURES = {
     # sub-microlitre magnitudes: everything must hold relative to the data, not to the base unit
     'tiny-binary': [('water', '123.456 nL'), ('nacl', '12.3 nmol')],
     'tiny-dry': [('nacl', '12.3 nmol')],
+    # a trace solute: concentrations that are tiny in base units (250 nM)
+    'trace-binary': [('water', '10 mL'), ('nacl', '2.5 nmol')],
 }
 DIL_UNITS = ['M', 'mM', 'm', 'mol/L', 'mmol/mL', 'g/L', 'g/mL', 'g/g', 'g/kg', 'mol/mol', 'L/L', 'mL/L', '%w/w', '%v/v', '%w/v',
              'mg/10 mL', 'umol/10 uL']
@@ -28,17 +30,31 @@ FILL_UNITS = ['L', 'mL', 'uL', 'nL', 'dL', 'g', 'mg', 'ug', 'kg', 'mol', 'mmol',
 FILL_FACTORS = [F(1, 2), F(1), F(3, 2), F(3)]
 
 
+THOROUGH = {'on': False}
+PARTS = [('water', '7 mL'), ('dmso', '3 mL'), ('nacl', '4 mmol'), ('na2so4', '1.5 mmol'), ('lipase', '2 U'), ('tea', '1.2 mL')]
+
+
+def more_mixtures():
+    """Thorough tier: every non-empty subset of six substances (63 mixtures)."""
+    out = {}
+    for r in range(1, len(PARTS) + 1):
+        for combo in itertools.combinations(range(len(PARTS)), r):
+            out['subset-' + ''.join(str(i) for i in combo)] = [PARTS[i] for i in combo]
+    return out
+
+
 def dilute_specs():
+    th = THOROUGH['on']
     for mix in MIXTURES:
         names = [n for n, _ in MIXTURES[mix]]
-        for solute in ('nacl', 'dmso'):
+        for solute in (('nacl', 'dmso', 'na2so4', 'tea', 'water') if th else ('nacl', 'dmso')):
             if solute not in names:
                 continue
-            for solvent in ('water', 'tea'):
+            for solvent in (('water', 'tea', 'dmso') if th else ('water', 'tea')):
                 if solvent == solute:
                     continue
-                for cu, f, cap in itertools.product(DIL_UNITS, FACTORS, CAPS):
-                    if cap != 'inf' and cu not in ('M', 'g/g', 'mol/mol', 'L/L'):
+                for cu, f, cap in itertools.product(DIL_UNITS, FACTORS + ([F(1, 100), F(99, 100), F(5)] if th else []), CAPS):
+                    if cap != 'inf' and not th and cu not in ('M', 'g/g', 'mol/mol', 'L/L'):
                         continue
                     yield {'op': 'dilute', 'mix': mix, 'solute': solute, 'solvent': solvent, 'cu': cu, 'f': [f.numerator, f.denominator],
                            'cap': cap}
@@ -47,8 +63,8 @@ def dilute_specs():
 def fill_specs():
     for mix in MIXTURES:
         for solvent in ('water', 'tea', 'lipase'):
-            for u, f, cap in itertools.product(FILL_UNITS, FILL_FACTORS, CAPS):
-                if cap != 'inf' and u not in ('mL', 'g', 'mmol'):
+            for u, f, cap in itertools.product(FILL_UNITS, FILL_FACTORS + ([F(1001, 1000), F(20)] if THOROUGH['on'] else []), CAPS):
+                if cap != 'inf' and not THOROUGH['on'] and u not in ('mL', 'g', 'mmol'):
                     continue
                 if solvent == 'lipase' and not u.endswith('g'):
                     continue
@@ -104,13 +120,20 @@ def run_spec(sp):
         needed = V0 + max(x, 0) * ref.per_base(rsv, 'L')
         if f >= 1 and sp['cap'] != 'inf':
             return [], ('skip',)
-        c = pp.Container('C', cap_string(pp, needed if f < 1 else V0, sp['cap']), contents)
+        try:
+            c = pp.Container('C', cap_string(pp, needed if f < 1 else V0, sp['cap']), contents)
+        except ValueError:
+            return [], ('skip',)          # the capacity class does not even hold the mixture (x <= 0: nothing to add)
         if f > 1:
             expect = 'refuse'
         elif f == 1:
             expect = 'either'
         else:
             expect = 'refuse' if sp['cap'] == 'just-short' else 'accept'
+        if float(target) < 1e3 * 10.0 ** -pp.config.internal_precision:
+            # the parsed target is rounded to 10^-precision in base units: below a thousand resolutions (e.g. 2.5e-11 mol/g for
+            # 25 nmol/kg) the request itself is only defined to > 0.1 %, and may even round to zero
+            expect = 'either'
         call = f"Container({sp['mix']}, cap={sp['cap']}).dilute({sp['solute']}, {cstr!r}, {sp['solvent']})"
         feat = f"dilute,mix={sp['mix']},solvent-present={int(solvent in probe.contents)}"
         env.clear_caches(pp)
@@ -147,7 +170,8 @@ def run_spec(sp):
     # ---- fill_to ----------------------------------------------------------------------------------------------------
     pf, base = ref.split_unit(sp['u'])
     cur = ref.measure(pp, probe.contents, base)
-    if cur == 0:
+    nothing_measured = cur == 0        # e.g. moles of an enzyme-only mixture: any positive target is above the current one
+    if nothing_measured:
         cur = F(1, 1000)
     qstr = C05.fmt(cur * f / pf, sp['u'])
     target, _ = ref.parse_quantity(qstr)
@@ -158,8 +182,13 @@ def run_spec(sp):
     needed = V0 + max(x, 0) * ref.per_base(rsv, 'L')
     if f <= 1 and sp['cap'] != 'inf':
         return [], ('skip',)
-    c = pp.Container('C', cap_string(pp, needed if f > 1 else V0, sp['cap']), contents)
-    if f < 1:
+    try:
+        c = pp.Container('C', cap_string(pp, needed if f > 1 else V0, sp['cap']), contents)
+    except ValueError:
+        return [], ('skip',)
+    if nothing_measured:
+        expect = 'accept' if sp['cap'] in ('inf', 'ample') else 'either'
+    elif f < 1:
         expect = 'refuse'
     elif f == 1:
         expect = 'either'
@@ -208,6 +237,9 @@ def run(col):
                 "Non-trivial = distinct (operation, mixture class, unit base, flags, expectation, outcome) classes")
     col.assumptions += ["factor 1 (target equals the current value) is don't-care between refusing and returning an equal container"]
     vals = [col.seed % 3] if col.tier == 'quick' else [0, 1, 2]
+    THOROUGH['on'] = col.tier == 'thorough'
+    if THOROUGH['on']:
+        MIXTURES.update(more_mixtures())
     for v in vals:
         _G.update(pp=pp, vidx=v)
         sps = list(dilute_specs()) + list(fill_specs())
@@ -229,5 +261,6 @@ def run(col):
 
 def replay(case):
     pp = env.load()
+    MIXTURES.update(more_mixtures())
     _G.update(pp=pp, vidx=case['vidx'])
     return run_spec(case['spec'])[0]
